@@ -59,7 +59,7 @@ func Work(w io.Writer, scen string, base uint64, from, n int, tier string, logLi
 		fmt.Fprintf(bw, "S %d\n", i)
 		bw.Flush()
 		st := simrt.NewStream(seedFor(base, i))
-		res := RunOne(sc, st, RunOpts{Tier: tier, LogLimit: logLimit, Keep: keep})
+		res := RunOne(sc, st, RunOpts{Tier: tier, LogLimit: logLimit, Keep: keep, Index: i})
 		res.Base, res.Index = base, i
 		sum.Runs++
 		sum.Steps += res.Stats.Steps
@@ -140,7 +140,7 @@ func Replay(rf *ReplayFile, logLimit int) (*RunResult, error) {
 	} else {
 		st = simrt.NewReplay(simrt.DecodeRLE(rf.Choices))
 	}
-	res := RunOne(sc, st, RunOpts{Tier: rf.Tier, LogLimit: logLimit, Keep: true})
+	res := RunOne(sc, st, RunOpts{Tier: rf.Tier, LogLimit: logLimit, Keep: true, Index: rf.SeedIndex})
 	return res, nil
 }
 
@@ -166,10 +166,11 @@ func ReplayServer(r io.Reader, w io.Writer) {
 			var req struct {
 				Scen    string      `json:"scen"`
 				Tier    string      `json:"tier"`
+				Index   int         `json:"index"`
 				Choices [][2]uint32 `json:"choices"`
 			}
 			if json.Unmarshal(line, &req) == nil {
-				res := RunOne(scenarios[req.Scen], simrt.NewReplay(simrt.DecodeRLE(req.Choices)), RunOpts{Tier: req.Tier, Keep: true})
+				res := RunOne(scenarios[req.Scen], simrt.NewReplay(simrt.DecodeRLE(req.Choices)), RunOpts{Tier: req.Tier, Keep: true, Index: req.Index})
 				res.Logs = nil
 				res.Trace = nil
 				b, _ := json.Marshal(res)
@@ -735,14 +736,14 @@ func (c *replayClient) stop() {
 }
 
 // try runs one candidate; died=true if the server process died on it.
-func (c *replayClient) try(scen, tier string, choices []uint32) (res *RunResult, died bool) {
+func (c *replayClient) try(scen, tier string, index int, choices []uint32) (res *RunResult, died bool) {
 	if c.cmd == nil {
 		if err := c.start(); err != nil {
 			return nil, true
 		}
 	}
 	c.runs++
-	req, _ := json.Marshal(map[string]any{"scen": scen, "tier": tier, "choices": simrt.EncodeRLE(choices)})
+	req, _ := json.Marshal(map[string]any{"scen": scen, "tier": tier, "index": index, "choices": simrt.EncodeRLE(choices)})
 	type ans struct {
 		line []byte
 		err  error
@@ -793,7 +794,7 @@ func trimZeros(c []uint32) []uint32 {
 
 // shrink minimises a failing choice list while the same violation
 // (property, oracle, class) persists.
-func shrink(o CheckOpts, scen string, choices []uint32, v Violation) ([]uint32, *RunResult, int) {
+func shrink(o CheckOpts, scen string, index int, choices []uint32, v Violation) ([]uint32, *RunResult, int) {
 	cl := &replayClient{o: o}
 	defer cl.stop()
 	budget := o.ShrinkBudget
@@ -806,7 +807,7 @@ func shrink(o CheckOpts, scen string, choices []uint32, v Violation) ([]uint32, 
 		if time.Now().After(deadline) || cl.runs > 3000 {
 			return false
 		}
-		res, died := cl.try(scen, o.Tier, c)
+		res, died := cl.try(scen, o.Tier, index, c)
 		if died || res == nil {
 			return false
 		}
@@ -916,7 +917,7 @@ func writeReplay(o CheckOpts, rf *ReplayFile) string {
 
 func shrinkAndWrite(o CheckOpts, res *RunResult, v Violation) (string, error) {
 	orig := simrt.DecodeRLE(res.Choices)
-	best, bres, runs := shrink(o, res.Scen, orig, v)
+	best, bres, runs := shrink(o, res.Scen, res.Index, orig, v)
 	minimised := true
 	if best == nil {
 		// did not reproduce in the replay server: that is a determinism
